@@ -288,6 +288,22 @@ func (env *SpecEnv) objectValue(o types.Object) *Value {
 }
 
 func (env *SpecEnv) qualified(pkgName, name string) *Value {
+	// an import alias of the package under contract (e.g. stdcontext "context") wins
+	if env.pkg != nil {
+		for _, f := range env.pkg.Syntax {
+			for _, im := range f.Imports {
+				if im.Name == nil || im.Name.Name != pkgName {
+					continue
+				}
+				path := strings.Trim(im.Path.Value, "\"")
+				if p := env.reg.pkgs[path]; p != nil && p.Types != nil {
+					if o := p.Types.Scope().Lookup(name); o != nil {
+						return env.objectValue(o)
+					}
+				}
+			}
+		}
+	}
 	for _, p := range env.reg.pkgs {
 		if p.Name != pkgName || p.Types == nil {
 			continue
@@ -657,6 +673,12 @@ func (env *SpecEnv) evalCall(e *SExpr) *Value {
 			}
 			if ty == nil {
 				specFail("as: unknown type %s", tn)
+			}
+			if !strings.HasPrefix(e.Args[1].Name, "*") {
+				// as(x, "T") for a boxed composite value: the immutable copy held by the interface
+				if _, isScalar := scalarSort(ty); !isScalar {
+					return env.st.loadObj("box<"+typeName(ty)+">", ty, x.S)
+				}
 			}
 			return scalar(x.S, types.NewPointer(ty))
 		case "fieldContents":
